@@ -23,8 +23,24 @@ Fixpoint rm_push (rm : rmap) (v : value) (p : string) : rmap :=
   end.
 
 (* superset.rs:113-119 *)
-Definition reverse_map (s : subs) : rmap :=
+Definition reverse_map0 (s : subs) : rmap :=
   fold_left (fun acc pv => rm_push acc (snd pv) (fst pv)) s [].
+
+(* fix F25: a parameter mapped to itself is also a candidate for the value that spells it:
+   for (T => T, U => T) the type `T` can be replaced with `U` or with `T` *)
+Definition self_param (v : value) : option string :=
+  match v with VType t => ty_param t | VExpr e => ex_param e | VIdentity => None end.
+
+Definition augment (s : subs) (e : value * list string) : value * list string :=
+  match self_param (fst e) with
+  | Some p => match lookup s p with
+              | Some VIdentity => (fst e, snd e ++ [p])
+              | _ => e
+              end
+  | None => e
+  end.
+
+Definition reverse_map (s : subs) : rmap := map (augment s) (reverse_map0 s).
 
 Fixpoint cprod {A : Type} (xss : list (list A)) : list (list A) :=
   match xss with
@@ -98,3 +114,43 @@ Definition wf_subsb (s : subs) : bool :=
   nodupb (map fst s) &&
   forallb (fun pv => is_param_ident (fst pv) &&
                      match snd pv with VExpr v => is_expr_kind (tlabel v) | _ => true end) s.
+
+(* ---- the enumeration the re-expression is specified by (C10), stated without the reverse
+   map: at a Type / Expr node that is the value of some parameter, the candidates are the
+   parameters bound to that value, in the order of the substitution, followed by the
+   identity-mapped parameter the node itself spells (if any); one result per choice at every
+   replaced node, children combined by the cartesian product; other nodes are rebuilt ---- *)
+Definition bound_to (s : subs) (v : value) : list string :=
+  map fst (filter (fun pv => value_eqb (snd pv) v) s).
+
+Definition spells_identity (s : subs) (v : value) : list string :=
+  match self_param v with
+  | Some p => match lookup s p with Some VIdentity => [p] | _ => [] end
+  | None => []
+  end.
+
+Definition candidates (s : subs) (v : value) : list string :=
+  match bound_to s v with
+  | [] => []
+  | ps => ps ++ spells_identity s v
+  end.
+
+Fixpoint subst_spec (s : subs) (t : term) {struct t} : list term :=
+  match t with
+  | Node l ks =>
+      let descend := map (Node l) (cprod (map (subst_spec s) ks)) in
+      if is_type_kind l then
+        match candidates s (VType (Node l ks)) with
+        | [] => descend
+        | ps => map mk_ty_param ps
+        end
+      else if is_expr_kind l then
+        match candidates s (VExpr (Node l ks)) with
+        | [] => descend
+        | ps => map mk_ex_param ps
+        end
+      else descend
+  end.
+
+Definition spec_key (s : subs) (bounded trait_ : term) : list (term * term) :=
+  flat_map (fun b => map (fun t => (b, t)) (subst_spec s trait_)) (subst_spec s bounded).
